@@ -2,6 +2,8 @@ import A2lVerif.Lemmas.PO.Compose
 import A2lVerif.Lemmas.PO.SampleIn
 import A2lVerif.Lemmas.PO.Counter2
 import A2lVerif.Lemmas.PO.Shipped
+import A2lVerif.Lemmas.PO.Text
+import A2lVerif.Lemmas.PO.Perm
 import A2lVerif.Props.C01
 import A2lVerif.Props.C03Table
 import A2lVerif.Props.C06
@@ -51,8 +53,9 @@ Direction "parser ⇒ writer", by induction on the parser's fuel (fragments are 
   `tok.sym`); `fid` (no include file: `Canon` has no included comments / elements); `fl`, `numText` (float codec
   idempotent on its output, output is a number token — obstacle `1e999 → inf`, `inf_*` below); `identText`, `cmtText`,
   `lineCmt` (token shapes and "the token behind a `//` comment stands on a later line": facts about the tokenizer
-  model that are NOT derived from `Model/Lex.lean` here; `inOk_of_written_stream` derives all of `InOk` for the written
-  streams of Lemmas/RT).
+  model; `inOk_of_written_stream` derives all of `InOk` for the written streams of Lemmas/RT, and `inOk_of_lexer`
+  derives these three — and `sym`, `fid` — for the output of `Lex.tokenize` on any text, under `TextOk`; see
+  "text-level front end" below).
 * `tableOk`, `shapeOk`, `seqTblOk`, `TagsOk`, `RootOk` — about the grammar (all true of the shipped table:
   `shipped_grammar_hypotheses`):
   parameters are scalars / structs of scalars / arrays and sequences of these (what Lemmas/RT supports), an arm's block
@@ -69,8 +72,31 @@ Direction "parser ⇒ writer", by induction on the parser's fuel (fragments are 
 * anything about NON-strict loads that log a recoverable problem (the recoveries drop or skip input; C04 / C06);
   loads that log notices only are covered via C06: `content_preserved_quiet`, `save_reload_stable_quiet`;
 * content preservation when position-restricted items are out of order (`content_preserved_statement`): the written
-  stream is then a permutation; only the in-order case is proved;
-* the tokenizer facts `identText`, `cmtText`, `lineCmt` of `InOk` from the tokenizer model.
+  stream is then a permutation. Proved: the in-order case (`content_preserved`), and
+  `content_preserved_up_to_sibling_order`: for EVERY reordering of siblings (`OT.SibL`, at every depth) the values of
+  the written tokens are a permutation of the input values without the dropped comments. Not proved:
+  `writer_order_is_sibling_permutation_statement` (the order `stringify` produces — `Canon` — IS such a reordering of
+  the input order);
+* (was open, now proved: the tokenizer facts `identText`, `cmtText`, `lineCmt` of `InOk` from `Model/Lex.lean` —
+  `lexer_token_shapes`, `inOk_of_lexer` — and the driver's fuel — `needL_le_tokens`, `save_reload_stable_strict_run`.)
+
+## Text-level front end and the driver's fuel
+
+* `lexer_token_shapes` — a second invariant of the tokenizer loop (Lemmas/PO/LexShape.lean): an identifier token is a run
+  of identifier characters unless it is the word behind `/include` or was started by `stepNumber` (`-xyz`, `1z`, `5_a`
+  become IDENTIFIER tokens); a comment token is blanks + `//…` without line break or blanks + `/*…*/` up to the first
+  `*/`; the token behind a `//` comment stands on a later line.
+* `inOk_of_lexer` — `InOk` for `e.toks = ts.map (convTok lx bytes)`, `Lex.tokenize bytes = .ok ts`. Remaining
+  hypotheses: strict; `TextOk bytes ts` = (a) no `/include` token (the model parses one file), (b) every identifier
+  token starts with a letter or `_` (see `minus_word_is_identifier_token`: needed, `IdentText` is false otherwise),
+  (c) the bytes of every comment token are UTF-8 — derived for a text that is a `String`
+  (`token_bytes_of_string_are_utf8`, `textOk_of_string_input`); the symbol table gives back the text of every interned identifier (`symText`); the float codec is
+  idempotent on its output and its output is a number token (`fl`, `numText`).
+* `content_preserved_text`, `save_reload_stable_strict_text` — theorems 2 and 4 with these hypotheses instead of `InOk`
+  and with `runParseFile` (the driver's fuel) for every load.
+* `needL_le_tokens` — `OT.needL 0 xs ≤ 3 · tokens + 13` for well-formed items, so `needL + 20 ≤ 4 · tokens + 64`; needs
+  that every parameter list has at most one parameter without tokens: `seqTblOk` (a sequence is last) and the new
+  decidable `arrTblOk` (no array of dimension 0), true of the shipped table (`shipped_arrays_positive`).
 -/
 namespace A2l.Tree
 open A2l.G A2l.Sc
@@ -512,5 +538,250 @@ theorem inf_not_reloadable :
     ¬ NumText "inf".toList ∧
     Counter2.errKind (runParseFile (Counter2.fEnv Counter2.fToks2)) = some .unexpectedTokenType :=
   ⟨Counter2.inf_loads, Counter2.inf_written_verbatim, Counter2.inf_not_numText, Counter2.inf_reload_fails⟩
+
+/-! ## text-level front end: the tokenizer facts of `InOk` from `Model/Lex.lean` -/
+
+/-- definitions used below -/
+example (b : Lex.Bytes) (p : UInt8 → Bool) (a e : Nat) :
+    Lex.AllIn b p a e = ∀ q, a ≤ q → q < e → ∃ c, b[q]? = some c ∧ p c = true := rfl
+example (b : Lex.Bytes) (t : Lex.Token) : Lex.LineC b t =
+    (t.ttype = .comment ∧ ∃ st, t.startpos ≤ st ∧ Lex.AllIn b (· == 32) t.startpos st ∧ b[st]? = some 47 ∧
+      b[st + 1]? = some 47 ∧ st + 2 ≤ t.endpos ∧ t.endpos ≤ b.size ∧ Lex.AllIn b (· != 10) (st + 1) t.endpos) := rfl
+example (b : Lex.Bytes) (t : Lex.Token) : Lex.BlockC b t =
+    (t.ttype = .comment ∧ ∃ st, t.startpos ≤ st ∧ Lex.AllIn b (· == 32) t.startpos st ∧ st ≤ t.endpos ∧
+      t.endpos ≤ b.size ∧ Lex.BlockCore (b.extract st t.endpos).toList) := rfl
+example (toks : List Lex.Token) : Lex.HasInc toks = ∃ t ∈ toks, t.ttype = .include := rfl
+
+/-- **shapes of the tokens `tokenize_core` produces** (all inputs): an identifier token is a non-empty run of identifier
+    characters — unless an `/include` token occurs (the word behind it is a path) or its first byte is not a letter or
+    `_` (`stepNumber` makes identifier tokens of `-xyz`, `1z`); a comment token is a `//` comment without line break
+    or a block comment up to its first `*/`, behind blanks; every token behind a `//` comment is on a later line. -/
+theorem lexer_token_shapes (b : Lex.Bytes) (ts : List Lex.Token) (h : Lex.tokenize b = .ok ts) :
+    (∀ t ∈ ts, t.ttype = .identifier → Lex.HasInc ts ∨
+      (∃ c, b[t.startpos]? = some c ∧ (Lex.isAlpha c || c == 95) = false) ∨
+      (Lex.AllIn b Lex.isIdentChar t.startpos t.endpos ∧ t.startpos < t.endpos ∧ t.endpos ≤ b.size)) ∧
+    (∀ t ∈ ts, t.ttype = .comment → Lex.LineC b t ∨ Lex.BlockC b t) ∧
+    ts.Pairwise (fun a c => Lex.LineC b a → a.line < c.line) :=
+  have hs := Lex.tokenize_shapes b ts h
+  ⟨fun t ht => (hs.shapes t ht).ident, fun t ht => (hs.shapes t ht).cmt, hs.lcp⟩
+
+example : Lex.tokenize SampleText.bytes = .ok SampleText.ts := SampleText.lexes
+
+/-- what is assumed about the text beside "the tokenizer accepts it" -/
+example (bytes : Lex.Bytes) (ts : List Lex.Token) : TextOk bytes ts ↔
+    ((∀ t ∈ ts, t.ttype ≠ .include) ∧
+     (∀ t ∈ ts, t.ttype = .identifier → ∀ c, bytes[t.startpos]? = some c → (Lex.isAlpha c || c == 95) = true) ∧
+     (∀ t ∈ ts, t.ttype = .comment → ∃ text, (bytes.extract t.startpos t.endpos).toList = encL text)) :=
+  ⟨fun h => ⟨h.1, h.2, h.3⟩, fun h => ⟨h.1, h.2.1, h.2.2⟩⟩
+
+/-- **`TextOk.identFirst` is needed**: `-xyz` is ONE identifier token (so are `1z`, `5_a`), `get_identifier` accepts it
+    in strict mode (it rejects a leading digit only), and its text is not `IdentText` -/
+theorem minus_word_is_identifier_token :
+    Lex.tokenize #[45, 120, 121, 122] = .ok [⟨.identifier, 0, 4, 1⟩] ∧
+    ¬ IdentText (convTok Sample.lx #[45, 120, 121, 122] ⟨.identifier, 0, 4, 1⟩).text := by
+  have h1 : Lex.tokenize #[45, 120, 121, 122] = .ok [⟨.identifier, 0, 4, 1⟩] := by decide +kernel
+  refine ⟨h1, ?_⟩
+  have : (convTok Sample.lx #[45, 120, 121, 122] ⟨.identifier, 0, 4, 1⟩).text = ['-', 'x', 'y', 'z'] := by decide +kernel
+  rw [this]
+  rintro ⟨c, cs, h, -, hc⟩
+  cases h
+  revert hc; decide
+
+/-- **the tokenizer facts of `InOk` hold of the tokenizer's output** (`identText`, `cmtText`, `lineCmt`; `sym` and `fid`
+    by construction of `convTok`). What remains to be assumed: strict mode, `TextOk`, the symbol table (`symText`) and
+    the float codec (`fl`, `numText`). -/
+theorem inOk_of_lexer (e : Env) (lx : LexEnv) (bytes : Lex.Bytes) (ts : List Lex.Token)
+    (h : Lex.tokenize bytes = .ok ts) (htext : TextOk bytes ts)
+    (htoks : e.toks = (ts.map (convTok lx bytes)).toArray) (hstrict : e.strict = true)
+    (hsym : ∀ (i : Nat) (t : PTok), e.toks[i]? = some t → t.ty = 0 → t.sym ≠ noSym → symText e.symbols t.sym = t.text)
+    (hfl : ∀ (i : Nat) (t : PTok) (r : List Char), e.toks[i]? = some t → t.ty = 5 → t.fl = some r →
+      lx.flOf r = some r ∧ NumText r) : InOk e lx :=
+  inOk_of_lexer_lemma e lx bytes ts h htext htoks hstrict hsym hfl
+
+/-- the three facts on their own -/
+theorem lexer_tokens_wellshaped {bytes : Lex.Bytes} {ts : List Lex.Token} (h : Lex.tokenize bytes = .ok ts)
+    (htext : TextOk bytes ts) (lx : LexEnv) :
+    (∀ tk ∈ ts, tk.ttype = .identifier → IdentText (convTok lx bytes tk).text) ∧
+    (∀ tk ∈ ts, tk.ttype = .comment → CommentText (convTok lx bytes tk).text) ∧
+    (∀ (i : Nat) (tk tk' : Lex.Token), ts[i]? = some tk → ts[i + 1]? = some tk' → tk.ttype = .comment →
+      isLineCmt (convTok lx bytes tk).text = true →
+      tk.line + countNewlines (convTok lx bytes tk).text < tk'.line) :=
+  ⟨lexer_identText h htext lx, fun tk htk hty => (lexer_cmt h htext lx tk htk hty).1, lexer_lineCmt h htext lx⟩
+
+/-- non-vacuity: the sample text satisfies the hypotheses of `inOk_of_lexer`; its converted tokens are the token array
+    of `SampleIn.eS` (`sample_hypotheses`) -/
+theorem sample_text_hypotheses :
+    Lex.tokenize SampleText.bytes = .ok SampleText.ts ∧ TextOk SampleText.bytes SampleText.ts ∧
+    SampleIn.eS.toks = (SampleText.ts.map (convTok Sample.lx SampleText.bytes)).toArray ∧
+    arrTblOk SampleIn.eS.table = true ∧ (∃ v s, runParseFile SampleIn.eS = .ok v s) :=
+  ⟨SampleText.lexes, SampleText.textOk, SampleText.toks_eq, by decide, SampleText.runs⟩
+
+/-! ## the driver's fuel -/
+
+/-- **the fuel of `runParseFile` suffices to read a written stream back**: for well-formed items (`OT.wfL`: what the
+    parser returns, `node_wellformed`) over a table in which sequences are last and arrays are not empty, the fuel bound
+    `OT.needL` of the read-back theorems is at most `3 · tokens + 13`; so `needL + 20 ≤ 4 · tokens + 64`. -/
+theorem needL_le_tokens (c : RCfg) (hs : seqTblOk c.e.table = true) (ha : arrTblOk c.e.table = true)
+    (xs : List OT) (parms : List Arm) (pib : Bool) (h : OT.wfL c parms pib xs) (lx : LexEnv) :
+    OT.needL 0 xs ≤ 3 * (OT.toksL 0 xs).length + 13 ∧
+    OT.needL 0 xs + 20 ≤ 4 * (mkToks lx (OT.toksL 0 xs)).toArray.size + 64 :=
+  ⟨A2l.Tree.needL_le_tokens_lemma c hs ha xs parms pib 0 h, run_fuel_ok c hs ha xs parms pib h lx⟩
+
+example (tbl : Table) : arrTblOk tbl = tbl.all (fun en => match en.def_ with
+    | .block _ items _ _ => items.all arrDimB
+    | _ => true) := rfl
+example (of : ItemTy) (n : Nat) : arrDimB (.arr of n) = decide (1 ≤ n) := rfl
+example : arrDimB .ident = true ∧ arrDimB (.seq .ident []) = true := ⟨rfl, rfl⟩
+
+/-- the shipped table has no array parameter of dimension 0 -/
+theorem shipped_arrays_positive : arrTblOk Shipped.table = true := shipped_arrTblOk
+
+/-- **theorem 4 with the driver's fuel**: `save_reload_stable_strict` where both loads are `runParseFile`
+    (fuel `4 · tokens + 64`) -/
+theorem save_reload_stable_strict_run {e : Env} {lx : LexEnv} (hin : InOk e lx) (htab : tableOk e.table e.known = true)
+    (hshape : shapeOk e.table = true) (hseqT : seqTblOk e.table = true) (harr : arrTblOk e.table = true)
+    (htags : TagsOk e) (hns : NoSpecialOk e) {rarms : List Arm} (hroot : RootOk e rarms) {v : Val} {s : PState}
+    (h : runParseFile e = .ok v s) :
+    ∃ items, InOrder e v items ∧ (Obstacles e items →
+      (∃ F0, ∀ F, F0 ≤ F → writeFile e v F = renderToks (OT.toksL 0 (OT.fixL false items))) ∧
+      (∃ ts, Lex.tokenize (encL (renderToks (OT.toksL 0 (OT.fixL false items)))).toArray = .ok ts ∧
+        (ts.map (convTok lx (encL (renderToks (OT.toksL 0 (OT.fixL false items)))).toArray)).toArray =
+          (mkToks lx (OT.toksL 0 (OT.fixL false items))).toArray) ∧
+      ∃ v' s', runParseFile { e with toks := (mkToks lx (OT.toksL 0 (OT.fixL false items))).toArray } = .ok v' s' ∧
+        (∃ F0, ∀ F, F0 ≤ F →
+          writeFile { e with toks := (mkToks lx (OT.toksL 0 (OT.fixL false items))).toArray } v' F = writeFile e v F) ∧
+        LayoutEq v v') :=
+  save_reload_strict_run_lemma hin htab hshape hseqT harr htags hns hroot h
+
+/-! ## theorems 2 and 4 from the text -/
+
+/-- **the bytes of every token of a `String` are UTF-8**: token boundaries are char boundaries (`lex_boundaries` of C03;
+    `encL chars` satisfies its hypothesis `Utf8Ok`), and a slice of `encL chars` between char boundaries is `encL` of a
+    sublist of `chars` -/
+theorem token_bytes_of_string_are_utf8 (chars : List Char) (ts : List Lex.Token)
+    (h : Lex.tokenize (encL chars).toArray = .ok ts) :
+    Lex.Utf8Ok (encL chars).toArray ∧
+    ∀ t ∈ ts, ∃ text, ((encL chars).toArray.extract t.startpos t.endpos).toList = encL text :=
+  ⟨utf8Ok_encL chars, token_bytes_utf8 chars ts h⟩
+
+/-- `TextOk` for a text that is a `String`: two clauses remain -/
+theorem textOk_of_string_input (chars : List Char) (ts : List Lex.Token) (h : Lex.tokenize (encL chars).toArray = .ok ts)
+    (hninc : ∀ t ∈ ts, t.ttype ≠ .include)
+    (hfirst : ∀ t ∈ ts, t.ttype = .identifier → ∀ c, (encL chars).toArray[t.startpos]? = some c →
+      (Lex.isAlpha c || c == 95) = true) : TextOk (encL chars).toArray ts :=
+  textOk_of_string chars ts h hninc hfirst
+
+/-- **theorem 2, text-level front end**: `chars` is any text (a `String`) the tokenizer accepts, without `/include`,
+    whose identifier tokens start with a letter or `_`; `e.toks` are its tokens as the driver converts them; the strict
+    load with the driver's fuel succeeds. Conclusion of `content_preserved`. Remaining hypotheses about the tokens:
+    `hsym` (symbol table), `hfl` (float codec). -/
+theorem content_preserved_text {e : Env} {lx : LexEnv} {chars : List Char} {ts : List Lex.Token}
+    (hlex : Lex.tokenize (encL chars).toArray = .ok ts) (hninc : ∀ t ∈ ts, t.ttype ≠ .include)
+    (hfirst : ∀ t ∈ ts, t.ttype = .identifier → ∀ c, (encL chars).toArray[t.startpos]? = some c →
+      (Lex.isAlpha c || c == 95) = true)
+    (htoks : e.toks = (ts.map (convTok lx (encL chars).toArray)).toArray) (hstrict : e.strict = true)
+    (hsym : ∀ (i : Nat) (t : PTok), e.toks[i]? = some t → t.ty = 0 → t.sym ≠ noSym → symText e.symbols t.sym = t.text)
+    (hfl : ∀ (i : Nat) (t : PTok) (r : List Char), e.toks[i]? = some t → t.ty = 5 → t.fl = some r →
+      lx.flOf r = some r ∧ NumText r)
+    (htab : tableOk e.table e.known = true) (hshape : shapeOk e.table = true) (htags : TagsOk e) (hns : NoSpecialOk e)
+    {rarms : List Arm} (hroot : RootOk e rarms) {v : Val} {s : PState} (h : runParseFile e = .ok v s) :
+    ∃ items, InOrder e v items ∧ (OT.posAll e.code items → Canon e v items) ∧
+      Pres (valuesOf (ts.map (convTok lx (encL chars).toArray)).toArray)
+        (valuesOf (mkToks lx (OT.toksL 0 (OT.fixL false items))).toArray) := by
+  have hin := inOk_of_lexer e lx _ ts hlex (textOk_of_string chars ts hlex hninc hfirst) htoks hstrict hsym hfl
+  have := content_preserved_lemma hin htab hshape htags hns hroot h
+  rw [htoks] at this
+  exact this
+
+/-- **theorem 4, text-level front end and the driver's fuel**: `write(load(write(load t))) = write(load t)` and
+    `load(write(load t)) ≈ load t` for every text `t = chars` (a `String`) the tokenizer accepts, without `/include`, whose
+    identifier tokens start with a letter or `_`, strictly loaded by `runParseFile`, under the two obstacles. -/
+theorem save_reload_stable_strict_text {e : Env} {lx : LexEnv} {chars : List Char} {ts : List Lex.Token}
+    (hlex : Lex.tokenize (encL chars).toArray = .ok ts) (hninc : ∀ t ∈ ts, t.ttype ≠ .include)
+    (hfirst : ∀ t ∈ ts, t.ttype = .identifier → ∀ c, (encL chars).toArray[t.startpos]? = some c →
+      (Lex.isAlpha c || c == 95) = true)
+    (htoks : e.toks = (ts.map (convTok lx (encL chars).toArray)).toArray) (hstrict : e.strict = true)
+    (hsym : ∀ (i : Nat) (t : PTok), e.toks[i]? = some t → t.ty = 0 → t.sym ≠ noSym → symText e.symbols t.sym = t.text)
+    (hfl : ∀ (i : Nat) (t : PTok) (r : List Char), e.toks[i]? = some t → t.ty = 5 → t.fl = some r →
+      lx.flOf r = some r ∧ NumText r)
+    (htab : tableOk e.table e.known = true) (hshape : shapeOk e.table = true) (hseqT : seqTblOk e.table = true)
+    (harr : arrTblOk e.table = true) (htags : TagsOk e) (hns : NoSpecialOk e)
+    {rarms : List Arm} (hroot : RootOk e rarms) {v : Val} {s : PState} (h : runParseFile e = .ok v s) :
+    ∃ items, InOrder e v items ∧ (Obstacles e items →
+      (∃ F0, ∀ F, F0 ≤ F → writeFile e v F = renderToks (OT.toksL 0 (OT.fixL false items))) ∧
+      (∃ ts', Lex.tokenize (encL (renderToks (OT.toksL 0 (OT.fixL false items)))).toArray = .ok ts' ∧
+        (ts'.map (convTok lx (encL (renderToks (OT.toksL 0 (OT.fixL false items)))).toArray)).toArray =
+          (mkToks lx (OT.toksL 0 (OT.fixL false items))).toArray) ∧
+      ∃ v' s', runParseFile { e with toks := (mkToks lx (OT.toksL 0 (OT.fixL false items))).toArray } = .ok v' s' ∧
+        (∃ F0, ∀ F, F0 ≤ F →
+          writeFile { e with toks := (mkToks lx (OT.toksL 0 (OT.fixL false items))).toArray } v' F = writeFile e v F) ∧
+        LayoutEq v v') :=
+  save_reload_strict_run_lemma
+    (inOk_of_lexer e lx _ ts hlex (textOk_of_string chars ts hlex hninc hfirst) htoks hstrict hsym hfl)
+    htab hshape hseqT harr htags hns hroot h
+
+/-- non-vacuity: every hypothesis of `save_reload_stable_strict_text` holds for the sample text, with the obstacles
+    absent (`sample_hypotheses`, `sample_text_hypotheses`) -/
+example : ∃ v items, InOrder SampleIn.eS v items := by
+  have hs := sample_hypotheses
+  have hin := hs.1
+  obtain ⟨v, s, hv⟩ := SampleText.runs
+  have hb := SampleText.bytes_eq
+  have htx := SampleText.textOk
+  have hlx := SampleText.lexes
+  have htk := SampleText.toks_eq
+  rw [hb] at htx hlx htk
+  obtain ⟨items, h1, -⟩ := save_reload_stable_strict_text (lx := Sample.lx) hlx htx.noInclude htx.identFirst htk rfl
+    hin.symText (fun i t r a b c => ⟨hin.fl i t r a b c, hin.numText i t r a b c⟩)
+    hs.2.1 hs.2.2.1 hs.2.2.2.1 (by decide) hs.2.2.2.2.1 hs.2.2.2.2.2.1 hs.2.2.2.2.2.2.1 hv
+  exact ⟨v, items, h1⟩
+
+/-! ## content preservation up to the order of siblings -/
+
+/-- `OT.SibL items items'`: the same items up to a permutation of siblings at every depth (generated by: related heads,
+    swap of two neighbours, transitivity); layout offsets and arm indices are free -/
+example (x y : OT) (l : List OT) : OT.SibL (y :: x :: l) (x :: y :: l) := .swap x y l
+example (x y : OT) (xs ys : List OT) (h1 : OT.Sib x y) (h2 : OT.SibL xs ys) : OT.SibL (x :: xs) (y :: ys) := .cons x y xs ys h1 h2
+example (a b c : List OT) (h1 : OT.SibL a b) (h2 : OT.SibL b c) : OT.SibL a c := .trans a b c h1 h2
+example (i i' : Nat) (tag : List Char) (blk : Bool) (ty so so' eo eo' : Nat) (fields : List Val) (items items' : List OT)
+    (h : OT.SibL items items') :
+    OT.Sib (.node i tag blk ty so eo fields items) (.node i' tag blk ty so' eo' fields items') :=
+  .node i i' tag blk ty so so' eo eo' fields items items' h
+example (xs : List OT) : OT.SibL xs xs := OT.SibL.refl xs
+
+/-- **reordering siblings permutes the values of the written tokens** -/
+theorem sibling_permutation_permutes_values (lx : LexEnv) {items items' : List OT} (h : OT.SibL items items') :
+    (valuesOf (mkToks lx (OT.toksL 0 (OT.fixL false items))).toArray).Perm
+      (valuesOf (mkToks lx (OT.toksL 0 (OT.fixL false items'))).toArray) :=
+  values_perm_of_sib lx h
+
+/-- **theorem 2 up to the order of siblings** (`content_preserved_statement` with "the writer's order is a reordering of
+    siblings" as hypothesis): `items` = the sub-elements of the loaded value in input order. For every reordering
+    `items'` of siblings, the values of the tokens of the stream `OT.toksL 0 (OT.fixL false items')` are a permutation
+    of a list `perm` that is the input value sequence with some comments deleted. -/
+theorem content_preserved_up_to_sibling_order {e : Env} {lx : LexEnv} (hin : InOk e lx)
+    (htab : tableOk e.table e.known = true) (hshape : shapeOk e.table = true) (htags : TagsOk e) (hns : NoSpecialOk e)
+    {rarms : List Arm} (hroot : RootOk e rarms) {fuel : Nat} {v : Val} {s : PState} (h : parseFile fuel e {} = .ok v s) :
+    ∃ items, InOrder e v items ∧ ∀ items', OT.SibL items items' →
+      ∃ perm, perm.Perm (valuesOf (mkToks lx (OT.toksL 0 (OT.fixL false items'))).toArray) ∧
+        Pres (valuesOf e.toks) perm :=
+  content_preserved_perm_lemma hin htab hshape htags hns hroot h
+
+/-- what is missing for `content_preserved_statement`: the order in which `stringify` writes (`Canon`) is a reordering of
+    siblings of the input order. NOT proved (needs: `sortGE` permutes; `InOrder`'s per-arm filters partition `items`;
+    recursion through `Canon` / `InOrder`). With it, `content_preserved_up_to_sibling_order` gives
+    `content_preserved_statement`. -/
+def writer_order_is_sibling_permutation_statement : Prop :=
+  ∀ (e : Env) (lx : LexEnv) (rarms : List Arm) (fuel : Nat) (v : Val) (s : PState) (items : List OT),
+    InOk e lx → tableOk e.table e.known = true → shapeOk e.table = true → TagsOk e → NoSpecialOk e → RootOk e rarms →
+    parseFile fuel e {} = .ok v s → InOrder e v items →
+    ∃ items', OT.SibL items items' ∧ Canon e v items'
+
+/-- non-vacuity: the two top-level items of the sample, swapped -/
+example : OT.SibL Sample.items [Sample.projO, Sample.verO] := .swap Sample.projO Sample.verO []
+example : (valuesOf (mkToks Sample.lx (OT.toksL 0 (OT.fixL false Sample.items))).toArray).Perm
+    (valuesOf (mkToks Sample.lx (OT.toksL 0 (OT.fixL false [Sample.projO, Sample.verO]))).toArray) :=
+  sibling_permutation_permutes_values Sample.lx (.swap Sample.projO Sample.verO [])
+
 
 end A2l.Tree
